@@ -17,6 +17,7 @@ import (
 
 	"github.com/KevoDB/kevo/pkg/common/log"
 	"github.com/KevoDB/kevo/pkg/config"
+	"github.com/KevoDB/kevo/pkg/verifhook"
 )
 
 const (
@@ -253,6 +254,7 @@ func (w *WAL) Append(entryType uint8, key, value []byte) (uint64, error) {
 	// Sequence number for this entry
 	seqNum := w.nextSequence
 	w.nextSequence++
+	verifhook.At("wal.append.locked")
 
 	// Encode the entry
 	// Format: type(1) + seq(8) + keylen(4) + key + vallen(4) + val
@@ -275,6 +277,7 @@ func (w *WAL) Append(entryType uint8, key, value []byte) (uint64, error) {
 		}
 	}
 
+	verifhook.At("wal.append.after_write")
 	// Create an entry object for notification
 	entry := &Entry{
 		SequenceNumber: seqNum,
@@ -286,6 +289,7 @@ func (w *WAL) Append(entryType uint8, key, value []byte) (uint64, error) {
 	// Notify observers of the new entry
 	w.notifyEntryObservers(entry)
 
+	verifhook.At("wal.append.before_sync")
 	// Sync the file if needed
 	if err := w.maybeSync(); err != nil {
 		return 0, err
@@ -539,6 +543,7 @@ func (w *WAL) writeFragmentedRecord(entryType uint8, seqNum uint64, key, value [
 		return err
 	}
 
+	verifhook.At("wal.frag.between")
 	// Prepare the remaining data
 	var remaining []byte
 
@@ -563,6 +568,7 @@ func (w *WAL) writeFragmentedRecord(entryType uint8, seqNum uint64, key, value [
 		chunk := remaining[:MaxRecordSize]
 		remaining = remaining[MaxRecordSize:]
 
+		verifhook.At("wal.frag.between")
 		if err := w.writeRawRecord(uint8(RecordTypeMiddle), chunk); err != nil {
 			return err
 		}
@@ -617,6 +623,7 @@ func (w *WAL) syncLocked() error {
 		return fmt.Errorf("failed to flush WAL buffer: %w", err)
 	}
 
+	verifhook.At("wal.sync.after_flush")
 	if err := w.file.Sync(); err != nil {
 		return fmt.Errorf("failed to sync WAL file: %w", err)
 	}
@@ -701,21 +708,25 @@ func (w *WAL) AppendBatch(entries []*Entry) (uint64, error) {
 		}
 	}
 
+	verifhook.At("wal.batch.before_write")
 	// Now write all entries atomically (no intermediate flushes)
 	// All entries in the batch share the same sequence number
 	for i, entry := range entries {
+		verifhook.At("wal.batch.between_records")
 		// Write the entry using its original type and the same sequence number
 		if err := w.writeRecord(RecordTypeFull, entry.Type, startSeqNum, entry.Key, entry.Value); err != nil {
 			return 0, fmt.Errorf("failed to write entry %d: %w", i, err)
 		}
 	}
 
+	verifhook.At("wal.batch.after_write")
 	// Update next sequence number by 1 (not by batch size)
 	w.nextSequence = startSeqNum + 1
 
 	// Notify observers about the batch
 	w.notifyBatchObservers(startSeqNum, entries)
 
+	verifhook.At("wal.batch.before_sync")
 	// Sync if needed - this ensures the entire batch hits disk atomically
 	if err := w.maybeSync(); err != nil {
 		return 0, err
@@ -831,10 +842,12 @@ func (w *WAL) Close() error {
 		return fmt.Errorf("failed to flush WAL buffer during close: %w", err)
 	}
 
+	verifhook.At("wal.close.after_flush")
 	if err := w.file.Sync(); err != nil {
 		return fmt.Errorf("failed to sync WAL file during close: %w", err)
 	}
 
+	verifhook.At("wal.close.after_sync")
 	// Now mark as rotating to block new operations
 	atomic.StoreInt32(&w.status, WALStatusRotating)
 
